@@ -273,12 +273,20 @@ class SchemaValidator:
                 or self.schema.default_resolver
             )
 
-            if resolver and self.enable_resolver_validation:
+            # Only the fields of object types are ever resolved: the executor
+            # never calls a resolver for an interface field.
+            is_resolved = isinstance(composite_type, ObjectType)
+
+            if resolver and is_resolved and self.enable_resolver_validation:
                 self._validate_resolver_arguments(
                     path, field.arguments, resolver,
                 )
 
-            if field.subscription_resolver and self.enable_resolver_validation:
+            if (
+                field.subscription_resolver
+                and is_resolved
+                and self.enable_resolver_validation
+            ):
                 self._validate_resolver_arguments(
                     path, field.arguments, field.subscription_resolver,
                 )
